@@ -50,7 +50,7 @@ var valRePool = []rePoolEntry{
 	{bluemonday.ImageAlign, []string{"left", "Middle"}, []string{"", "center"}},
 	{bluemonday.ISO8601, []string{"1997", "1997-07-16", "1997-07-16T19:20:30.45+01:00"}, []string{"", "97", "1997-7-16"}},
 	{bluemonday.ListType, []string{"circle", "A", "i"}, []string{"", "x", "aa"}},
-	{bluemonday.Number, []string{"1", "-1.5", "+2e3"}, []string{"", "e", "1,0"}},
+	{bluemonday.Number, []string{"1", "-1.5", "+2e3", ".5", "-.25", ".5e1", "007"}, []string{"", "e", "1,0", "5.", "1e"}},
 	{regexp.MustCompile(`^(nofollow|noopener|noreferrer| )*$`), []string{"", "nofollow", "nofollow noopener"}, []string{"x", "nofollowx"}},
 	{regexp.MustCompile(`^_(blank|self)$`), []string{"_blank", "_self"}, []string{"", "blank", "_top"}},
 	// pure literals: fully anchored, \A..\z anchored, and unanchored
@@ -73,12 +73,12 @@ var elRePool = []*regexp.Regexp{
 var elReSamples = [][]string{{"my-x", "my-zzz"}, {"my-y", "x-a-y"}, {"x-a-y", "x-q"}, {"h1", "h3", "h6"}, {"zz", "my-x", "div", "custom"}, {"span", "sx", "section"},
 	{"b", "i", "u", "em"}, {"tag1", "tagged"}, {"a", "img", "link"}, {"b", "ul", "del", "qq"}, {"my-x", "my-zzz"}, {"zz", "my-x", "div", "custom"}, {"my-y", "x-a-y"}}
 
-var schemePool = []string{"http", "https", "mailto", "ftp", "data", "x-app", "javascript", "tel"}
+var schemePool = []string{"http", "https", "mailto", "ftp", "data", "x-app", "javascript", "tel", "zoommtg"}
 
 var schemeRePool = []*regexp.Regexp{regexp.MustCompile(`^x-`), regexp.MustCompile(`^(ftp|sftp)$`), regexp.MustCompile(`^tel$`), regexp.MustCompile(`s$`), regexp.MustCompile(`^[a-z]+$`)}
 
 var stylePropPool = []string{"color", "font-family", "text-decoration", "margin", "background-image", "opacity", "nosuchprop", "text-align", "width", "x-any", "x-kw",
-	"background", "font-size", "border", "animation", "filter", "list-style", "transition", "height", "float", "-webkit-color", "-moz-text-align", "mso-width"}
+	"background", "font-size", "border", "animation", "filter", "list-style", "transition", "height", "float", "-webkit-color", "-moz-text-align", "mso-width", "z-index"}
 
 var styleRePool = []rePoolEntry{
 	{regexp.MustCompile(`^[a-z]+$`), []string{"red", "left"}, []string{"", "a b", "1"}},
@@ -131,7 +131,23 @@ var styleFns = []styleFnEntry{
 	{"never", func(string) bool { return false }},
 	{"closedSet", func(v string) bool { return v == "red" || v == "blue" || v == "1px" || v == "alpha beta" }},
 	{"inertChars", func(v string) bool { return inertCSS.MatchString(v) }},
+	{"oneOf(teal)", oneOf("teal")},
+	{"oneOf(plum,1px)", oneOf("plum", "1px")},
+	{"oneOf(red)", oneOf("red")},
 }
+
+// oneOf returns closures of ONE function literal that differ only in captured state
+func oneOf(set ...string) func(string) bool {
+	return func(v string) bool {
+		for _, s := range set {
+			if s == v {
+				return true
+			}
+		}
+		return false
+	}
+}
+
 
 // Log records what the callbacks of one policy instance saw (per case; never shared).
 type Log struct {
